@@ -3,8 +3,9 @@
 import Driver.Common
 import GivaroModel.Model.RatRecon
 import GivaroModel.Spec.RatReconSpec
--- @driver-mode ratrecon Driver.ratreconLine
-namespace Driver
+-- @driver-mode ratrecon Driver.RatRecon.ratreconLine
+namespace Driver.RatRecon
+open Driver
 open Givaro.Model.RatRecon Givaro.Spec.RatRecon
 
 private def b2i (b : Bool) : Int := if b then 1 else 0
@@ -112,4 +113,4 @@ def ratreconLine (line : String) : String :=
       | _, _, _ => "BAD key/arity | " ++ line
     | _, _ => "BAD number | " ++ line
 
-end Driver
+end Driver.RatRecon
